@@ -446,6 +446,7 @@ def run(ctx):
         cov.update({"obligations": len(core.theorems_of(MODULE)), "discharged": 0, "checker_cmd": "n/a (translation failed)",
                     "trusted_base": core.TRUSTED_BASE})
         return
+    ctx.log("translated parser.y: %d productions, %d error states, %d callback variants" % (info["productions"], info["error_states"], len(cbs)))
     # 2 need column vs source -------------------------------------------------------------------------------------
     eff = grammar.load_effects(core.VERIF)
     missing_rows = [c for c in cbs if c not in eff]
@@ -456,6 +457,7 @@ def run(ctx):
     if not ok:
         broken = core.failing_theorems(log)
         ctx.log("proof broken:", broken or log[-1500:])
+    ctx.log("lean: %s (%d theorems)" % ("ok" if ok else "BROKEN", cov.get("obligations", 0)))
     have_drv = os.path.exists(core.lean_exe("drv_c01"))
     if not ok:
         ok2, _ = core.lake_build(["drv_c01"])
@@ -490,12 +492,15 @@ def run(ctx):
                 ctx.proof_broken("witness:" + key, "witness %r does not crash the real library: %r" % (text, detail), "witness replay")
         else:
             unexplained.append((k, s, l))
+    ctx.log("exception set: %s" % ", ".join(cov["exceptions"]))
     # 5 trace correspondence ----------------------------------------------------------------------------------------
     mism, died = [], []
     if have_drv:
         mism, died, rc2, err2 = run_traces(ctx, b, cbs, cov)
         if rc2 != 0:
             ctx.proof_broken("drv_c01", err2[-2000:], "driver died")
+    ctx.log("traces: %d ops, %d calls compared, %d disagreements, %d ops died" % (
+        cov.get("trace_ops", 0), cov.get("correspondence_cases", 0), cov.get("correspondence_disagreements", 0), len(died)))
     scan_cls = {k: v.get("cls", "DocumentBuilder") for k, v in grammar.source_need_scan(core.REPO).items() if not k.startswith("@")}
     # crashes seen while tracing: hand them to the stream module so that one crash has one key, whoever finds it
     PARTNAME = {v: k for k, v in PARTS.items()}
@@ -530,6 +535,7 @@ def run(ctx):
             ctx.finding(key, "real library died inside callback %s while tracing (%s)" % (last_call, l.strip()),
                         {"mode": op[0], "newxta": op[1], "input_text": op[2], "family": op[3]})
     cov["trace_ops_died"] = len(died)
+    ctx.log("died ops triaged")
     # 6 part B: sanitizer stream ---------------------------------------------------------------------------------------
     before = len(ctx.violations)
     if stream_mod is not None:
@@ -606,6 +612,9 @@ def replay(ctx, path):
     print(json.dumps(r, indent=1)[:4000])
     rp = r.get("replay", {})
     b = core.build_repo("asan")
+    if "entry" in rp and "mode" not in rp:
+        import checks.c01_stream as stream_mod
+        return stream_mod.replay_one(ctx, b, rp)
     if rp.get("kind") == "grammar-exception" or "mode" in rp:
         exe = trace_exe(b)
         text = rp.get("witness") or rp.get("input_text") or ""
@@ -619,7 +628,7 @@ def replay(ctx, path):
         print(out[-1500:])
         print(err[-2500:])
         return 1 if "END DIED" in out else 0
-    if "input_b64" in rp:
+    if "entry" in rp or "input_b64" in rp or rp.get("kind") == "superlinear":
         import checks.c01_stream as stream_mod
         return stream_mod.replay_one(ctx, b, rp)
     print("nothing to replay (proof/translation break): see `error`")
